@@ -245,6 +245,10 @@ Definition rep_fun (id : Z) (key : list Z) (v : js) : js :=
   else if id =? 3 then match v with Str s => WStr s | _ => v end                        (* strings -> String objects *)
   else if id =? 4 then if key_eqb key [] then Obj [([119], v)] else v                   (* key "" -> {w: v} *)
   else if id =? 5 then match v with Arr _ | Cyc true => Null | _ => v end                          (* arrays -> null *)
+  else if id =? 7 then if key_eqb key [115]                                              (* key "s" -> one shared [1,[2]] *)
+                       then Arr [Num 4607182418800017408 [49] 1; Arr [Num 4611686018427387904 [50] 1]] else v
+  else if id =? 8 then match v with Num b d n => WNum b d n | Bool b => WBool b | _ => v end   (* primitives -> wrapper objects *)
+  else if id =? 9 then if key_eqb key [99] then Cyc false else v                          (* key "c" -> the holder: a cycle *)
   else v.
 
 (* 15.12.3 step 4.b: the property list K *)
